@@ -151,6 +151,8 @@ class ParametricTransform:
         if arg.shape != shape:
             raise ValueError(f"{type(self).__name__}.data() 'arg' must have shape {shape!r}")
         copy = shallow_copy(self)
+        # Shallow copy shares container of parameters, use separate container for copy with new parameters
+        copy._parameters = copy._parameters.copy()
         if callable(params):
             delattr(copy, "p")
         if isinstance(params, Parameter) and not isinstance(arg, Parameter):
@@ -284,7 +286,10 @@ class ParametricTransform:
 
     def unlink(self: Union[TSpatialTransform, ParametricTransform]) -> TSpatialTransform:
         r"""Make a shallow copy of this transformation with parameters set to ``None``."""
-        return shallow_copy(self).unlink_()
+        copy = shallow_copy(self)
+        # Shallow copy shares container of parameters, use separate container for copy without parameters
+        copy._parameters = copy._parameters.copy()
+        return copy.unlink_()
 
     def unlink_(self: Union[TSpatialTransform, ParametricTransform]) -> TSpatialTransform:
         r"""Resets transformation parameters to ``None``."""
